@@ -107,7 +107,7 @@ def run_c20(tape, r, tier, sandbox):
     # robots per origin
     robots = {}
     for o in site.origins:
-        mode = tape.weighted([(5, 'direct'), (2, 'big'), (1, 'redirect'), (1, '404'), (1, '5xx-k'), (1, '5xx-always'), (1, 'reset-k'), (1, 'cut-k')], 'rb.mode')
+        mode = tape.weighted([(5, 'direct'), (2, 'big'), (1, 'redirect'), (1, '404'), (1, '5xx-k'), (1, '5xx-always'), (1, 'reset-k'), (1, 'cut-k'), (4, 'garbled-k')], 'rb.mode')
         text = gen_robots(tape, r)
         if mode == 'big':
             pad = '# ' + 'padding ' * 10 + '\n'
@@ -154,7 +154,9 @@ def run_c20(tape, r, tier, sandbox):
             o = entry['origin']
             st = robots[o]
             entry['robots'] = True
-            ex = {'t': entry['t'], 'target': entry['target']}
+            ex = {'t': entry['t'], 'target': entry['target'],
+                  # (with --sitemaps /robots.txt is also fetched as an ordinary item: that answer does not go to the robots checker)
+                  'own_item': bool(entry.get('rec')) and canon(entry['rec']['url']).endswith('/robots.txt')}
             st['exchanges'].append(ex)
             mode = st['mode']
             if entry['target'] == '/robots.txt':
@@ -176,6 +178,14 @@ def run_c20(tape, r, tier, sandbox):
                         conn.send(b'HTTP/1.1 200 OK\r\nContent-Type: text/plain\r\nContent-Length: 500\r\n\r\nUser-agent: *\n')
                         conn.finish()
                     ex['status'] = 'fault'
+                elif mode == 'garbled-k' and st['fetches'] <= st['k']:
+                    # an answer that is no HTTP message: wpull treats it like a missing file (allow everything) - its documented
+                    # choice, which the oracle follows: what counts is the LAST answer received for the origin
+                    r.faults['robots_garbled'] += 1
+                    r.probes['robots_garbled_answer'] += 1
+                    conn.send(b'HTTP/1.1 2OO OK\r\nContent-Type: text/plain\r\nContent-Length: 5\r\n\r\nhello')
+                    conn.finish()
+                    ex['status'] = 'garbled'
                 elif mode == 'redirect':
                     body = b'moved' if st['k'] == 1 else (b'<html><head><title>301 Moved</title></head><body>The document has moved '
                                                           b'<a href="/robots2.txt">here</a>.' + b' padding' * 60 + b'</body></html>')
@@ -221,7 +231,7 @@ def run_c20(tape, r, tier, sandbox):
             groups[o.key()] = None
         else:
             groups[o.key()] = refrobots.parse(st['text'])
-        done = [ex['done_at'] for ex in st['exchanges'] if ex.get('status') in (200, 404)]
+        done = [ex['done_at'] for ex in st['exchanges'] if ex.get('status') in (200, 404, 'garbled')]
         accepted_at[o.key()] = min(done) if done else None
     offered = False
     for e in server.log:
@@ -250,6 +260,15 @@ def run_c20(tape, r, tier, sandbox):
             r.violate(P, 'request-before-robots', st['mode'], '%s requested at t=%.3f before robots.txt of %r had been received (%r)'
                       % (e['url'], e['t'], o, acc))
         # (a) allowed?
+        if st['mode'] == 'garbled-k':
+            # the rules in force are those of the last answer received (a garbled one: none). The item decided somewhere between
+            # its start and this request: the request is wrong only if every state in force during that time forbids it.
+            evs = sorted((ex['done_at'], ex['status']) for ex in st['exchanges'] if ex.get('status') in (200, 404, 'garbled') and 'done_at' in ex and not ex.get('own_item'))
+            s0 = (e['rec'] or {}).get('item_start') or e['t']
+            before = [stt for tt, stt in evs if tt <= s0 + 1e-9]
+            states = ([before[-1]] if before else []) + [stt for tt, stt in evs if s0 + 1e-9 < tt <= e['t'] + 1e-9]
+            if any(stt != 200 for stt in states) or not states:
+                continue
         if not refrobots.allowed(g, ua_sent, path):
             pos = _rule_pos(st['text'], path)
             sig = 'rule-beyond-4096-bytes' if pos is not None and pos >= 4096 else 'plain'
@@ -279,7 +298,7 @@ def run_c20(tape, r, tier, sandbox):
             offered = True
     if offered:
         r.probes['disallowed_offered'] += 1
-    if not r.violations:
+    if not r.violations and not any(v['mode'] == 'garbled-k' for v in robots.values()):
         for u in expected:
             if u not in reqs:
                 res = site.by_url(u)
